@@ -36,7 +36,7 @@ def Equiv (a b : GConn ε σ) : Prop :=
      | .more, .more => True | .complete, .complete => True | _, _ => False) ∧
     a.st = b.st ∧ a.total = b.total)
 
-variable {M}
+variable {M} {Inv : σ → Prop}
 
 theorem Equiv.refl (a : GConn ε σ) : Equiv a a := by
   unfold Equiv
@@ -69,7 +69,7 @@ theorem run_of_not_more {c : GConn ε σ} (h : ∀ _ : c.verdict = .more, False)
     rw [this]; exact ih
 
 /-- delivery independence: any segmentation of a stream ends like the one-piece delivery -/
-theorem run_flatten (L : M.Lawful) (c : GConn ε σ) (d : Bytes) (ds : List Bytes) :
+theorem run_flatten (L : M.Lawful Inv) (c : GConn ε σ) (hI : Inv c.st) (d : Bytes) (ds : List Bytes) :
     Equiv (M.run c (d :: ds)) (M.run c [d ++ ds.flatten]) := by
   induction ds generalizing c d with
   | nil => simp; exact Equiv.refl _
@@ -87,7 +87,7 @@ theorem run_flatten (L : M.Lawful) (c : GConn ε σ) (d : Bytes) (ds : List Byte
       have hbuf : c.pending ++ (d ++ (d2 :: rest).flatten) = (c.pending ++ d) ++ (d2 :: rest).flatten := by simp
       cases hp : M.parse c.st (c.pending ++ d) with
       | fail e =>
-        obtain ⟨e', he'⟩ := parse_append_fail L hp (d2 :: rest).flatten
+        obtain ⟨e', he'⟩ := parse_append_fail L hI hp (d2 :: rest).flatten
         have h1 : M.deliver c d = { c with verdict := .failed e } := by simp [deliver, hv, hp]
         have h2 : M.deliver c (d ++ (d2 :: rest).flatten) = { c with verdict := .failed e' } := by
           simp only [deliver, hv, hbuf, he']
@@ -96,7 +96,7 @@ theorem run_flatten (L : M.Lawful) (c : GConn ε σ) (d : Bytes) (ds : List Byte
       | ok st s' n =>
         cases st with
         | complete =>
-          obtain ⟨hc, _⟩ := parse_append_complete L hp (d2 :: rest).flatten
+          have hc := parse_append_complete L hI hp (d2 :: rest).flatten
           have h1 : M.deliver c d = { st := s', pending := (c.pending ++ d).drop n, total := c.total + n, verdict := .complete } := by
             simp [deliver, hv, hp]
           have h2 : M.deliver c (d ++ (d2 :: rest).flatten) =
@@ -105,12 +105,13 @@ theorem run_flatten (L : M.Lawful) (c : GConn ε σ) (d : Bytes) (ds : List Byte
           rw [h1, h2, run_of_not_more (by simp)]
           exact Or.inr ⟨rfl, rfl, by simp, rfl, rfl⟩
         | incomplete =>
-          obtain ⟨hle, hc⟩ := parse_append_incomplete L hp (d2 :: rest).flatten
+          have hc := parse_append_incomplete L hI hp (d2 :: rest).flatten
+          have hI' := (parse_inv L hI hp).1
           have h1 : M.deliver c d = { st := s', pending := (c.pending ++ d).drop n, total := c.total + n, verdict := .more } := by
             simp [deliver, hv, hp]
           rw [h1]
           -- one-piece delivery from `c` equals one-piece delivery of the rest from the resumed connection
-          refine Equiv.trans (ih _ d2) ?_
+          refine Equiv.trans (ih _ hI' d2) ?_
           have hres : M.run { st := s', pending := (c.pending ++ d).drop n, total := c.total + n, verdict := GVerdict.more } [d2 ++ rest.flatten]
               = M.deliver { st := s', pending := (c.pending ++ d).drop n, total := c.total + n, verdict := GVerdict.more } (d2 ++ rest.flatten) := by
             simp [run]
